@@ -17,13 +17,21 @@ import (
 
 // FmtCase is a spokfile that parses and loads, to be formatted through the real CLI.
 type FmtCase struct {
-	Src string `json:"src"`
+	// ProjDir names the directory holding the spokfile ("" = proj)
+	ProjDir string `json:"proj_dir,omitempty"`
+	Src     string `json:"src"`
 }
 
 // genFmt draws an abstract program in a random layout whose loading has no side effects
 // (string and join values only), weighted towards comments and layouts that shrink or grow
 // when formatted.
 func genFmt(t *rapid.T) FmtCase {
+	c := genFmtBody(t)
+	c.ProjDir = genProjDir(t)
+	return c
+}
+
+func genFmtBody(t *rapid.T) FmtCase {
 	var stmts []gen.Stmt
 	n := rapid.IntRange(1, 6).Draw(t, "nstmts")
 	for i := 0; i < n; i++ {
@@ -88,7 +96,7 @@ func execFmtBinary(id string, s *ev.Shard, b *sandbox.Box, c FmtCase) *rp.Fail {
 	if err != nil {
 		return nil // not this check's business (C06)
 	}
-	if err := b.Reset(); err != nil {
+	if err := b.ResetAs(c.ProjDir); err != nil {
 		return &rp.Fail{Sig: "harness", Msg: err.Error()}
 	}
 	if err := writeProject(b, b.Proj, map[string]string{"spokfile": c.Src}); err != nil {
